@@ -75,9 +75,28 @@ def generate(unit, reg, canaries=True, assume_not=(), assume=None):
     # python-level defaults for parameters not in the contract
     a = fdef.args
     names = [x.arg for x in a.posonlyargs + a.args + a.kwonlyargs]
+    # parameters with a default that the contract does not mention: python evaluates the default ONCE, when the
+    # function is defined -- at call time it is some value of that expression's type, unrelated to the current state
+    pos = a.posonlyargs + a.args
+    dmap = {p.arg: d for p, d in zip(pos[len(pos) - len(a.defaults):], a.defaults)}
+    dmap.update({p.arg: d for p, d in zip(a.kwonlyargs, a.kw_defaults) if d is not None})
     for n in names:
         if n not in st.env and n in getattr(unit, "param_defaults", {}):
             st.env[n] = unit.param_defaults[n](sx, st)
+        if n not in st.env and n in dmap:
+            tmp = State()
+            tmp.ghost = dict(st.ghost)
+            try:
+                dv = sx.ev1(dmap[n], tmp)
+            except Unsupported:
+                dv = None
+            if isinstance(dv, Conc):
+                try:
+                    dv = sx.lift(dv)
+                except Unsupported:
+                    dv = None
+            if isinstance(dv, Val) and not isinstance(dv, (Ref, Func, Conc)) and dv.ty is not None:
+                st.env[n] = dv if isinstance(dv.ty, V._None) or z3.is_const(dv.term) and dv.term.decl().kind() != z3.Z3_OP_UNINTERPRETED else sx.fresh(dv.ty, n + "_default", st)
         if n not in st.env:
             raise Unsupported("parameter %s of %s has no declared type in the sidecar" % (n, unit.qual))
     if unit.ghost_init:
